@@ -11,6 +11,7 @@ import (
 	"testing"
 	"time"
 
+	bcv0 "github.com/tendermint/tendermint/blockchain/v0"
 	tmproto "github.com/tendermint/tendermint/proto/tendermint/types"
 	"github.com/tendermint/tendermint/types"
 	"pgregory.net/rapid"
@@ -18,7 +19,10 @@ import (
 	"verif/lib"
 )
 
-func TestMain(m *testing.M) { lib.Main(m) }
+func TestMain(m *testing.M) {
+	bcv0.VerifC13SetPeerTimeout(harnessPeerTimeout)
+	lib.Main(m)
+}
 
 // findingSeenCommit: the commit accompanying a block (successor's LastCommit) is checked with the early-exit
 // VerifyCommitLight and then persisted as the seen commit; slots behind the +2/3 prefix, nil-flagged slots and
@@ -282,6 +286,10 @@ func judge(n *node, out *outcome) *verdict {
 	v.classes = append(v.classes, fmt.Sprintf("honest-stops:%d", min(honestStops, 6)))
 
 	// (4) progress and hand-over
+	if out.silent != "" {
+		bad("%s", out.silent)
+		return v
+	}
 	if out.stuckMax > 0 {
 		lowered := false
 		for _, p := range sc.Peers {
@@ -408,7 +416,7 @@ func syncOnce(t failer, test string, sc *scenario, strict bool) *verdict {
 	// generous: the pool itself re-requests a block whose redo got lost only after 30 s
 	budget := 50 * time.Second
 	if sc.Slow {
-		budget = 120 * time.Second
+		budget = 80 * time.Second
 	}
 	out, err := n.run(budget)
 	if err != nil {
@@ -749,6 +757,28 @@ func TestNarrowRangeLiar(t *testing.T) {
 			if v.liesFirst == 0 {
 				t.Fatalf("VERIF-INFRA: the lie did not reach the node first")
 			}
+		})
+	}
+	if m := infra(); m != "" {
+		t.Fatalf("VERIF-INFRA: %s", m)
+	}
+}
+
+// TestServesThenSilent (fixed scenario): a peer announces three blocks less than it has, serves faithfully what it is
+// asked, then claims two blocks above the tip and answers nothing when asked for them. It must be dropped within the
+// peer timeout, after which the node is caught up with the honest peer and hands over.
+func TestServesThenSilent(t *testing.T) {
+	for _, beyond := range []string{"silence", "noblock"} {
+		beyond := beyond
+		t.Run(beyond, func(t *testing.T) {
+			sc := regressScenario("right")
+			sc.Peers[0].Role, sc.Peers[0].Status, sc.Peers[0].StatusArg = "honest", "true", 0
+			sc.Peers[1].Status, sc.Peers[1].StatusArg = "stale", 3
+			sc.Peers[1].Status2, sc.Peers[1].Status2At = "inflated", 60
+			sc.Peers[1].Beyond = respSpec{Kind: beyond}
+			sc.Peers[0].JoinAt = 30 // the honest peer connects after the other one has served its three blocks
+			sc.Slow = true
+			syncOnce(t, "TestServesThenSilent", sc, true)
 		})
 	}
 	if m := infra(); m != "" {
